@@ -543,3 +543,8 @@ def frame_obligations(ex: Executor, ctx: Ctx, st: State, con: Contract, params):
         goal = z3.ForAll([r], z3.Implies(z3.And(r >= 0, r < st.alloc0, *excl),
                                          z3.Select(arr, r) == z3.Select(a0, r)))
         ctx.add_oblig(st, 'frame', f.replace('$', '_'), goal)
+
+
+# extensions are loaded last: they may import any core module at module level
+from . import lib as _lib_for_extensions      # noqa: E402
+_lib_for_extensions.load_extensions()
